@@ -604,7 +604,14 @@ def run_case(cls, params, rec):
 	stop = eff_end(end, L)
 	assert 0 <= start < stop <= L, params
 	Wn = stop - start
-	mon = gen.Immutable(X=ctx.X, **{"arg%d" % j: a for j, a in
+	# same values, another memory layout (views of larger storages)
+	params, ctx.X, xbase = gen.apply_layout(params, rec, ctx.X)
+	bases = {"Xbase": xbase}
+	ctx.args = list(ctx.args)
+	for j in range(len(ctx.args)):
+		_, ctx.args[j], bases["argbase%d" % j] = gen.apply_layout(params,
+			rec, ctx.args[j], "arg", j)
+	mon = gen.Immutable(X=ctx.X, **bases, **{"arg%d" % j: a for j, a in
 		enumerate(ctx.args)})
 	if start > 0 or stop < L:
 		rec.count("proper_window_cases")
